@@ -90,10 +90,18 @@ func c14Build(c c14Case) (*interp.ExecEnv, ast.Word) {
 			env.Set(name, s.Text)
 			inner = &ast.ParamExp{Name: &ast.Lit{Value: name}}
 		}
+		if c.Real == 3 {
+			// the segment's text is the literal word of ${u:-…} (u unset): split like any other unquoted text
+			var word ast.Word
+			if s.Text != "" {
+				word = ast.Word{&ast.Lit{Value: s.Text}}
+			}
+			inner = &ast.ParamExp{Braces: true, Name: &ast.Lit{Value: "u"}, Op: ":-", Word: word}
+		}
 		switch {
 		case !s.Quoted:
 			w = append(w, inner)
-		case s.Text == "" && c.Real == 0:
+		case s.Text == "" && (c.Real == 0 || c.Real == 3):
 			w = append(w, &ast.Quote{Tok: `"`, Value: ast.Word{}})
 		case c.Real == 2:
 			w = append(w, &ast.Quote{Tok: `'`, Value: ast.Word{&ast.Lit{Value: s.Text}}})
@@ -134,7 +142,7 @@ func init() {
 	register(&check{
 		id:    "C14",
 		level: "model_checking",
-		rule: "every word of ≤ N segments (N=6 quick, 7 thorough) over the segment kinds (incl. an unquoted expansion that produces nothing, ${u:-} / an empty $var) × IFS ∈ {unset, default, ' ,', ',', ':', '', 'é,', '|', ' x', '_~<nl>', '\\@', '<nl>', ' '} (white space outside IFS — tab, space, newline or CR — is a segment kind of its own, also between ordinary characters when IFS is white space only) × realisations {literal parts, $var parts, single-quoted}; " +
+		rule: "every word of ≤ N segments (N=6 quick, 7 thorough) over the segment kinds (incl. an unquoted expansion that produces nothing, ${u:-} / an empty $var) × IFS ∈ {unset, default, ' ,', ',', ':', '', 'é,', '|', ' x', '_~<nl>', '\\@', '<nl>', ' '} (white space outside IFS — tab, space, newline or CR — is a segment kind of its own, also between ordinary characters when IFS is white space only) × realisations {literal parts, $var parts, single-quoted, and for words of ≤ 4 segments the literal word of ${u:-…}}; " +
 			"plus words of 1…40 repetitions of 9 segment units; plus histories on ONE environment: every sequence of ≤ 3 (thorough 4) IFS settings with 5 probe words (literal and through a variable) expanded after each change, and every pair (IFS₁, probe) → (IFS₂, word ≤ 3 characters over {a space , : é tab}); " +
 			"non-trivial = the rule yields ≥ 2 fields (the word really is cut), and every history",
 		assume: []string{"reference splitter written from the property statement (c14Ref)", "NoGlob set so that pathname expansion does not interfere; words are AST values (white space cannot be written literally)"},
@@ -213,7 +221,10 @@ func c14Run(w *W) {
 			}
 			if len(cur) > 0 && w.Mine() {
 				w.Count("states", 1)
-				for real := 0; real < 3; real++ {
+				for real := 0; real < 4; real++ {
+					if real == 3 && len(cur) > 4 {
+						break // (the ${u:-text} realisation: words of ≤ 4 segments)
+					}
 					c := c14Case{IFS: ifs.v, IFSSet: ifs.set, Real: real, Segs: cur}
 					w.Count("evaluations", 1)
 					w.Count("transitions", 1)
